@@ -38,13 +38,16 @@ class Ctx:
         return c
 
 
-def explore(run, max_dev=None, on_exec=None, max_exec=None):
+def explore(run, max_dev=None, on_exec=None, max_exec=None, root=()):
     """Enumerate every choice vector of ``run`` with at most max_dev deviations.
 
+    root: fixed leading choices (a partition cell of the space: only vectors starting
+    with root are explored; its non-zero entries count as deviations).
     run(ctx) -> observation (any).  on_exec(ctx, obs, cut) is called once per
     execution.  Returns dict(executions, cut, points, capped).
     """
-    prefix = []
+    root = list(root)
+    prefix = list(root)
     stats = {'executions': 0, 'cut': 0, 'points': 0, 'capped': False, 'max_len': 0}
     while True:
         ctx = Ctx(prefix)
@@ -69,7 +72,7 @@ def explore(run, max_dev=None, on_exec=None, max_exec=None):
         trace, arity = ctx.trace, ctx.arity
         i = len(trace) - 1
         nxt = None
-        while i >= 0:
+        while i >= len(root):
             if trace[i] + 1 < arity[i]:
                 if max_dev is None:
                     nxt = trace[:i] + [trace[i] + 1]
@@ -82,6 +85,30 @@ def explore(run, max_dev=None, on_exec=None, max_exec=None):
         if nxt is None:
             return stats
         prefix = nxt
+
+
+def roots(run, max_dev, depth):
+    """All choice prefixes of length <= depth that partition the space explored by
+    explore(run, max_dev): a prefix shorter than depth is a complete execution."""
+    out = []
+
+    def rec(prefix):
+        ctx = Ctx(prefix)
+        try:
+            run(ctx)
+        except Horizon:
+            pass
+        if len(ctx.trace) <= len(prefix) or len(prefix) >= depth:
+            out.append(list(prefix))
+            return
+        i = len(prefix)
+        dev = sum(1 for c in prefix if c)
+        for c in range(ctx.arity[i]):
+            if max_dev is not None and dev + (1 if c else 0) > max_dev:
+                continue
+            rec(prefix + [c])
+    rec([])
+    return out
 
 
 def selftest():
@@ -110,4 +137,13 @@ def selftest():
         return tuple(out)
     st = explore(run2, None, lambda ctx, o, cut: seen.append(o))
     assert st['executions'] == 1 + 2 + 4 and len(set(seen)) == 7
+    # roots partition the space
+    tot = 0
+    for r in roots(run, None, 2):
+        tot += explore(run, None, root=r)['executions']
+    assert tot == 12, tot
+    tot = sum(explore(run, 1, root=r)['executions'] for r in roots(run, 1, 2))
+    assert tot == 5, tot
+    tot = sum(explore(run2, None, root=r)['executions'] for r in roots(run2, None, 2))
+    assert tot == 7, tot
     return True
